@@ -46,6 +46,12 @@ Theorem C17_modinv_sound : forall x m r, 0 < m ->
 Proof. exact modinv_sound. Qed.
 Print Assumptions C17_modinv_sound.
 
+(* ModDiv (odd modulus: multiplication by the inverse; even modulus: solution of
+   y*u = x modulo m/gcd): whatever is returned solves y * u = x (mod m) *)
+Theorem C17_moddiv_sound : forall x y m u, 0 < m -> moddiv x y m = Some u -> (y * u) mod m = x mod m.
+Proof. exact moddiv_sound. Qed.
+Print Assumptions C17_moddiv_sound.
+
 (* the logarithmic fuel of the extended Euclid loop always suffices *)
 Theorem C17_egcd_fuel_enough : forall m x, 0 < m ->
   exists res, egcd (egcd_fuel m) m (x mod m) 0 1 = Some res.
@@ -215,7 +221,8 @@ Example C17_nonvacuous_crt_multi :
 Proof. vm_compute. repeat split. Qed.
 
 Example C17_nonvacuous_modinv :
-  modinv 3 7 = Some 5 /\ modinv 6 9 = None /\ modinv (2^200 + 1) (2^521 - 1) <> None.
+  modinv 3 7 = Some 5 /\ modinv 6 9 = None /\ modinv (2^200 + 1) (2^521 - 1) <> None /\
+  moddiv 4 6 8 = Some 2 /\ moddiv 3 6 8 = None /\ moddiv 5 3 7 = Some 4.
 Proof. vm_compute. repeat split; discriminate. Qed.
 
 Example C17_nonvacuous_sqrt :
